@@ -31,7 +31,12 @@ constexpr bool can_scale_without_overflow(Magnitude<BPs...> m, Rep value) {
         (void)value;
         return true;
     } else {
-        return std::numeric_limits<Rep>::max() / get_value<Rep>(m) >= value;
+        // A scale factor that cannot even be represented in `Rep` overflows every nonzero value.
+        // (Asking `get_value<Rep>(m)` directly would be a hard error, and this function must stay
+        // usable in SFINAE contexts such as `std::is_convertible`.)
+        constexpr auto mag_value_result = detail::get_value_result<Rep>(Magnitude<BPs...>{});
+        return (mag_value_result.outcome == detail::MagRepresentationOutcome::OK) &&
+               (std::numeric_limits<Rep>::max() / mag_value_result.value >= value);
     }
 }
 
